@@ -367,6 +367,7 @@ class MultiIndex(DataFrameSchema):
                 checks=index.checks,
                 nullable=index.nullable,
                 unique=index.unique,
+                report_duplicates=index.report_duplicates,
             )
         super().__init__(
             columns=columns,
